@@ -141,6 +141,9 @@ type Case struct {
 	P                int64      `json:"P"`
 	Min              int32      `json:"min"`
 	Max              int32      `json:"max"`
+	// PodsStuckAt > 0: the StatefulSet never has more than that many pods, whatever scale is requested (pods beyond stay
+	// pending); with min-shard above it the coordinator keeps asking in vain and the existing shards do the work
+	PodsStuckAt int        `json:"podsStuckAt,omitempty"`
 	Idle             string     `json:"idle"` // off | now | long | mid (MidIdle; only in units that do not judge convergence)
 	DisableAlleviate bool       `json:"disableAlleviate"`
 	RetainStore      bool       `json:"retainStore"`
@@ -957,6 +960,9 @@ func (w *World) ApplyScale(delay int) {
 		w.dropTailShard()
 	}
 	for int32(len(w.Shards)) < w.Desired && len(w.Shards) < 64 {
+		if w.Case.PodsStuckAt > 0 && len(w.Shards) >= w.Case.PodsStuckAt {
+			break // the further pods stay pending (no node has room for them): the shards that exist do the work
+		}
 		w.addShard()
 		w.Shards[len(w.Shards)-1].Unready = delay
 	}
